@@ -43,8 +43,8 @@ structure EnginePair (nnc : Bool) (n : Nat) (cs gs : List Row) (fC fG : Bool) (s
   minC : ∀ i, i < cs.length → ∃ x : Vec, x.length ≤ numCols nnc n ∧
     holdsAll ((cs.eraseIdx i).map (toL nnc)) x ∧ ¬ holdsAll (cs.map (toL nnc)) x
   minG : ∀ j, j < gs.length → ¬ Generated ((gs.eraseIdx j).map (toL nnc)) (toL nnc (gs.getD j default)).v
-  satC : fC = true → SatCorrect (cs.map (toL nnc)) (gs.map (toL nnc)) satC.rows
-  satG : fG = true → SatCorrect (gs.map (toL nnc)) (cs.map (toL nnc)) satG.rows
+  satC : fC = true → SatCorrect (cs.map (toL nnc)) (gs.map (toL nnc)) satC.rows ∧ satC.ncols = cs.length
+  satG : fG = true → SatCorrect (gs.map (toL nnc)) (cs.map (toL nnc)) satG.rows ∧ satG.ncols = gs.length
 
 /-- the invariant of one `Polyhedron` object denoting the set `S` -/
 structure FPoly.Inv (x : FPoly) (S : Set Val) : Prop where
